@@ -1074,6 +1074,21 @@ func (rn *runner) evalDir(td *TestDir, seed uint64, only *request, report bool) 
 			}
 		}
 	}
+	// ---- the directory under other spellings / a second server on a different directory
+	if only == nil && td.Clean {
+		canon := map[string]string{}
+		for i, q := range reqs {
+			if q.Mod != nil && sendable(q.URL) && impl[i].Err == "" {
+				canon[q.URL] = impl[i].obs()
+			}
+		}
+		if td.idx%3 == 0 || rn.f.Tier == "thorough" {
+			fails = append(fails, rn.spellingPhase(td, root, reqs, canon, report)...)
+		}
+		if td.idx%3 == 1 || td.idx == 0 || rn.f.Tier == "thorough" {
+			fails = append(fails, rn.twoServersPhase(td, root, seed, report)...)
+		}
+	}
 	if report && td.idx%37 == 1 {
 		var mods []string
 		for _, m := range td.Mods {
@@ -1367,10 +1382,10 @@ func main() {
 			}
 			if len(td.Mods) > 1 {
 				mods := common.ShrinkList(td.Mods, func(ms []Mod) bool {
-					return same(&TestDir{Mods: ms, Extras: td.Extras, Clean: td.Clean, Probes: td.Probes}) != nil
+					return same(&TestDir{Mods: ms, Extras: td.Extras, Clean: td.Clean, Probes: td.Probes, idx: td.idx}) != nil
 				})
 				if len(mods) < len(td.Mods) {
-					c := &TestDir{Mods: mods, Extras: td.Extras, Clean: td.Clean, Probes: td.Probes}
+					c := &TestDir{Mods: mods, Extras: td.Extras, Clean: td.Clean, Probes: td.Probes, idx: td.idx}
 					if g := same(c); g != nil {
 						best, bestF = c, *g
 					}
@@ -1457,7 +1472,7 @@ func main() {
 	res.Notes = append(res.Notes, fmt.Sprintf("%d oracle-table entries supplied to the model on demand in %d rounds, %d requests re-asked (x/mod CheckPath, checkElem, Check, semver.IsValid/Compare, pseudoVersionRE, json Short)", sumConns(conns, 0), sumConns(conns, 1), sumConns(conns, 2)),
 		fmt.Sprintf("%d directories evaluated by %d parallel workers (one model process each); failures are shrunk and reported afterwards in generation order", len(queue), workers),
 		"module paths and versions containing \"_\" are excluded from the direct oracles (ambiguous on-disk naming); such directories are compared with the model only")
-	res.Rule = fmt.Sprintf("corpus, /repo's testdata/mod, %d clean generated module directories (1-3 modules x 1-4 versions: upper-case and nested paths, major suffixes, gopkg.in; semver, prerelease, pseudo, +incompatible, mismatching and invalid versions; .txt/.txtar/directory layouts; .info/.mod present or missing, nested, dot and empty files) and %d directories outside the naming discipline (two layouts at once, versions without v, underscores, undecodable names, wrong entry kinds, hand-written archives), each served by a real goproxytest.Server; per directory: list/info/mod/zip of every stored version, unknown modules/versions/extensions, a third of %d fixed malformed URLs (all in thorough), commit-hash requests, mutated URLs, every zip response checked for validity (archive/zip, an independent hand-written container reader, re-serialisation) and its central directory compared with the model's; then 16 concurrent first requests for each of up to 5 URLs (16 in thorough) on a fresh server and one random interleaving of the model's handlers; then 3 big modules (0.6-1.2 MB under the race detector, where loading and zipping them takes 100 ms and more: 600-member .txt archive, 250-file directory, 4 x 300 kB .txtar; 3-30 MB in thorough) each served by fresh servers hit by 16-32 first requests for info/mod/zip staggered by 0-5 ms, 3 rounds each, every response required to be 200 with the stored body, and the race detector's log read after every concurrent round; %d escape/unescape strings against x/mod; the Gallina model of x/mod (CheckPath, SplitPathVersion, checkElem, Check, semver IsValid/Canonical/Compare, the pseudo-version expression) compared with x/mod on every decision taken while answering and on a quarter as many generated near-valid paths and versions, and every sixth directory answered again from oracle tables; a case is one HTTP request (non-trivial unless a fixed malformed URL answered 404); distinct = distinct (directory, URL, response)", nClean, nOdd, len(malformed), nEsc)
+	res.Rule = fmt.Sprintf("corpus, /repo's testdata/mod, %d clean generated module directories (1-3 modules x 1-4 versions: upper-case and nested paths, major suffixes, gopkg.in; semver, prerelease, pseudo, +incompatible, mismatching and invalid versions; .txt/.txtar/directory layouts; .info/.mod present or missing, nested, dot and empty files) and %d directories outside the naming discipline (two layouts at once, versions without v, underscores, undecodable names, wrong entry kinds, hand-written archives), each served by a real goproxytest.Server; per directory: list/info/mod/zip of every stored version, unknown modules/versions/extensions, a third of %d fixed malformed URLs (all in thorough), commit-hash requests, mutated URLs, every zip response checked for validity (archive/zip, an independent hand-written container reader, re-serialisation) and its central directory compared with the model's; a third of the clean directories served again under nine other spellings of the directory name (trailing slash, ./rel, relative, //, /./, /../) and another third next to a second server in the same process on a directory with the same module versions and different contents (all of them in thorough); then 16 concurrent first requests for each of up to 5 URLs (16 in thorough) on a fresh server and one random interleaving of the model's handlers; then 3 big modules (0.6-1.2 MB under the race detector, where loading and zipping them takes 100 ms and more: 600-member .txt archive, 250-file directory, 4 x 300 kB .txtar; 3-30 MB in thorough) each served by fresh servers hit by 16-32 first requests for info/mod/zip staggered by 0-5 ms, 3 rounds each, every response required to be 200 with the stored body, and the race detector's log read after every concurrent round; %d escape/unescape strings against x/mod; the Gallina model of x/mod (CheckPath, SplitPathVersion, checkElem, Check, semver IsValid/Canonical/Compare, the pseudo-version expression) compared with x/mod on every decision taken while answering and on a quarter as many generated near-valid paths and versions, and every sixth directory answered again from oracle tables; a case is one HTTP request (non-trivial unless a fixed malformed URL answered 404); distinct = distinct (directory, URL, response)", nClean, nOdd, len(malformed), nEsc)
 	res.Write(f.Out)
 }
 
